@@ -605,10 +605,20 @@ def corpus() -> List[Tuple[str, Any]]:
         M('a', [['import', 'b', None]]),
         M('b', [cls('B')]),
         M('c', [frm('a', 'b'), ['all', ['b']], cls('C', ['b.B'])])], 'queries': [['c', 'b.B'], ['c', 'b']]}))
+    # `name = dotted.name` is expanded when it is visited; a plain import does not make the module known before
+    out.append(('alias-assignment-plain-import', {'mods': [
+        M('a', [['import', 'm', None], ['alias', 'x', 'm.B'], cls('K', ['x'])]),
+        M('m', [frm('c', 'B')]),
+        M('c', [cls('B')])], 'queries': [['a', 'x']]}))
     # star import inside a cycle
     out.append(('star-in-cycle', {'mods': [
         M('a', [cls('A0'), ['star', 0, 'b'], cls('A1', ['B0'])]),
         M('b', [cls('B0'), ['star', 0, 'a'], cls('B1', ['A0']), cls('B2', ['A1'])])], 'queries': []}))
+    # the witness of C06_rebound_import_in_cycle_refuted: a name imported twice in a module on an import cycle
+    out.append(('rebound-import-in-cycle', {'mods': [
+        M('a', [frm('c', 'Z'), cls('X', doc='a.X')]),
+        M('b', [cls('X', doc='b.X')]),
+        M('c', [frm('a', 'X'), cls('K', ['X']), frm('b', 'X'), cls('Z')])], 'queries': []}))
     return out
 
 
